@@ -31,8 +31,8 @@ Section C12.
     Forall (fun a => wp_ok Pose ik rrt strategy (fst a)) tr.
   Proof. exact (probe_loop_waypoints Pose ik mid coef max_cost rrt budget0). Qed.
 
-  Theorem C12_no_interp_unless_requested : forall strategy poses stopped tr,
-    probe_strategy Pose ik mid coef max_cost rrt budget0 false strategy poses stopped = Some tr ->
+  Theorem C12_no_interp_unless_requested : forall start strategy poses stopped tr,
+    probe_strategy Pose ik mid coef max_cost rrt budget0 false start strategy poses stopped = Some tr ->
     Forall (fun a => Z.testbit (snd a) 3 = false) tr.
   Proof. exact (probe_no_interp_unless_requested Pose ik mid coef max_cost rrt budget0). Qed.
 
@@ -43,7 +43,7 @@ Section C12.
     (exists tr, plan Pose ik mid coef max_cost densify rrt budget0 include start_collides choose stop_seen from land steps park = Some tr) <->
     start_collides = false /\
     exists s tr, In s (ik land from) /\
-      probe_strategy Pose ik mid coef max_cost rrt budget0 include s (with_intermediate_poses Pose densify land steps park) (stop_seen s) = Some tr.
+      probe_strategy Pose ik mid coef max_cost rrt budget0 include from s (with_intermediate_poses Pose densify land steps park) (stop_seen s) = Some tr.
   Proof. intros i sc ch ss H. exact (plan_success_iff Pose ik mid coef max_cost densify rrt budget0 i sc ch ss H). Qed.
 
   Theorem C12_plan_is_a_probe : forall include start_collides choose stop_seen,
@@ -51,7 +51,7 @@ Section C12.
     forall from land steps park tr,
     plan Pose ik mid coef max_cost densify rrt budget0 include start_collides choose stop_seen from land steps park = Some tr ->
     exists s, In s (ik land from) /\
-      probe_strategy Pose ik mid coef max_cost rrt budget0 include s (with_intermediate_poses Pose densify land steps park) (stop_seen s) = Some tr.
+      probe_strategy Pose ik mid coef max_cost rrt budget0 include from s (with_intermediate_poses Pose densify land steps park) (stop_seen s) = Some tr.
   Proof. intros i sc ch ss H. exact (plan_is_a_probe Pose ik mid coef max_cost densify rrt budget0 i sc ch ss H). Qed.
 End C12.
 
@@ -62,14 +62,17 @@ Proof. exact inter_coord_on_segment. Qed.
 Theorem C12_nsteps_fine : forall d th sm sr : R, 0 < sm -> 0 < sr -> d / INR (nsteps d th sm sr) <= sm \/ d <= 0.
 Proof. exact nsteps_fine. Qed.
 
-(** KNOWN FINDING (not repaired): the plan starts at the landing solution, not at the given start configuration.
-    In the model this is visible as: the first way-point of any successful probe is the strategy. *)
-Theorem C12_starts_at_strategy_refuted : forall (Pose : Type) ik mid coef max_cost rrt budget0 include strategy p0 rest tr,
-  probe_strategy (T:=R) Pose ik mid coef max_cost rrt budget0 include strategy (p0 :: rest) false = Some tr ->
-  include = true -> exists tl, tr = (strategy, F_LAND) :: tl.
+(** the plan starts at the caller's start configuration: every successful probe begins with the on-boarding leg, and the
+    RRT contract (C13: a returned path begins with its start vector) puts [start] first.
+    (Until fix 'stroke plan starts at the given start joints' this was the _refuted form: the first way-point was the strategy.) *)
+Theorem C12_starts_at_from : forall (Pose : Type) ik mid coef max_cost (rrt : list R -> list R -> option (list (list R))) budget0 include start strategy p0 rest tr,
+  (forall a b path, rrt a b = Some path -> hd_error path = Some a /\ last path a = b) ->
+  probe_strategy (T:=R) Pose ik mid coef max_cost rrt budget0 include start strategy (p0 :: rest) false = Some tr ->
+  include = true -> hd_error (map fst tr) = Some start.
 Proof.
-  intros Pose ik mid coef max_cost rrt budget0 include strategy p0 rest tr H ->. unfold probe_strategy in H.
-  destruct (probe_loop Pose ik mid coef max_cost rrt budget0 p0 rest [(strategy, F_LAND)] strategy) as [t|] eqn:E; [|discriminate].
+  intros Pose ik mid coef max_cost rrt budget0 include start strategy p0 rest tr Hrrt H ->. unfold probe_strategy in H.
+  destruct (rrt start strategy) as [onb|] eqn:Eo; [|discriminate].
+  destruct (probe_loop Pose ik mid coef max_cost rrt budget0 p0 rest (onboard onb strategy) strategy) as [t|] eqn:E; [|discriminate].
   injection H as <-.
   assert (G : forall rest from trace prev t, probe_loop Pose ik mid coef max_cost rrt budget0 from rest trace prev = Some t -> exists tl, t = trace ++ tl).
   { clear. induction rest as [|to rest IH]; intros from trace prev t; cbn [probe_loop].
@@ -78,5 +81,10 @@ Proof.
       + intros Hp. apply IH in Hp. destruct Hp as [tl ->]. rewrite <- app_assoc. eexists. reflexivity.
       + destruct (first_rrt _ _ _) as [path|]; [|discriminate].
         intros Hp. apply IH in Hp. destruct Hp as [tl ->]. rewrite <- app_assoc. eexists. reflexivity. }
-  apply G in E. destruct E as [tl ->]. exists tl. reflexivity.
+  apply G in E. destruct E as [tl ->].
+  destruct (Hrrt _ _ _ Eo) as [Hhd Hlast]. unfold onboard.
+  destruct onb as [|o1 otl]; [discriminate|]. cbn [hd_error] in Hhd. injection Hhd as ->.
+  destruct otl as [|o2 otl'].
+  - cbn [last] in Hlast. subst strategy. reflexivity.
+  - reflexivity.
 Qed.
